@@ -12,8 +12,11 @@ OBS = os.path.join(tlc.SPECS, "pool", "PoolObs.tla")
 SRC = "/repo/windpyutils/parallel/own_proc_pools.py"
 
 
+NONE_MARK = -7          # what the functor returns for a None element
+
+
 def f(x):
-    return 2 * x + 1
+    return NONE_MARK if x is None else 2 * x + 1
 
 
 def value(c, i):
@@ -62,6 +65,9 @@ class Harness:
                 S.W.event(op="wready", w=self.wid)
 
             def __call__(self, x):
+                if x is None:               # a legal element: the functor maps it like any other value
+                    self._user_code()
+                    return f(x)
                 c, i = x // 1000, x % 1000
                 ch = self._scen["calls"][c - 1]["chunk"] if 1 <= c <= len(self._scen["calls"]) else 1
                 S.W.event(op="witem", w=self.wid, c=c, i=i, chunk=ch)
@@ -85,6 +91,9 @@ class Harness:
 
         def data_of(c, call):
             items = [value(c, i) for i in range(call["n"])]
+            if call.get("nones"):
+                # every second element is None (inputs are arbitrary values; None and other falsy values are ordinary elements)
+                items = [None if i % 2 else x for i, x in enumerate(items)]
             if call.get("lazy"):
                 def gen():
                     for x in items:
@@ -117,8 +126,13 @@ class Harness:
                     c = ci + 1
                     w.event(op="call_begin", c=c, n=call["n"], chunk=call["chunk"], ord=1 if call["ordered"] else 0)
                     meth = pool.imap if call["ordered"] else pool.imap_unordered
+                    got = 0
                     for y in meth(data_of(c, call), call["chunk"]):
-                        cc, ii = decode(y)
+                        if y == NONE_MARK and call.get("nones") and call["ordered"] and got % 2 == 1:
+                            cc, ii = c, got         # the result of a None element: identified by its position (ordered calls)
+                        else:
+                            cc, ii = decode(y)
+                        got += 1
                         w.event(op="yield", c=cc, i=ii)
                     w.event(op="call_end")
                     if scen.get("uar") == "between":
